@@ -24,11 +24,11 @@ var propMeta = map[string][2][]string{
 		{"invalid UTF-8 patterns (MustCompile panics; not reachable through JSON)", "pieces longer than 3 and names longer than 8/12 code points, more than 2/3 stars"}},
 	"C08": {{"net/http header lookup, WhoIs, capability decoding, netip parsing and the nine db.DB methods are nondeterministic stubs", "a body that is not JSON makes the decoder report an error (contract)"},
 		{"net/http routing and header canonicalisation", "real JSON syntax", "WhoIs itself", "the HTML dashboard"}},
-	"C09": {{"caller allowed to get; healthy audit sink"}, {"a real HTTP round trip; the network client's status mapping and the file-backed client are checked for C13/C08 only as far as those harnesses go"}},
+	"C09": {{"caller allowed to get; healthy audit sink"}, {"a real HTTP round trip (the transport is a stub: any status code, transport and body-read failures)"}},
 	"C10": {{"StoreClient/Cache are scripted by nondeterministic outcomes; at most 2/3 failing requests, after which the caller's context ends", "timers replaced by a recorded list of sleeps", "string order is an uninterpreted strict total order"},
 		{"wall-clock behaviour of real timers", "more than 3 declared names", "struct-tag parsing for arbitrary struct shapes (see C20)"}},
 	"C11": {{"GetIfChanged answers not-changed iff the versions are equal (protocol contract)", "singleflight.DoChan runs the function once per key (leader model)", "clock quantities are mathematical integers within +-2^40 s"},
-		{"the +-10% ticker jitter arithmetic and real tickers", "server-side changes within one poll beyond the arbitrary per-name service state", "a service that reuses version numbers"}},
+		{"real tickers and wall-clock cadence (the jitter arithmetic itself is decided, 5 ns <= interval < 2^62 ns)", "server-side changes within one poll beyond the arbitrary per-name service state", "a service that reuses version numbers"}},
 	"C12": {{"a single mutex and one critical section per operation make operations atomic (trusted reduction)"},
 		{"true parallel interleavings and the Go race detector", "memory-model effects below the mutex abstraction"}},
 	"C13": {{"encoding/json contract model, including the outcome 'error with a partially filled target'", "FS model of C04 for the cache file"},
@@ -44,7 +44,7 @@ var propMeta = map[string][2][]string{
 		{"values longer than the bound, megabyte values", "flag parsing, the terminal prompt branch, the built binary's exit status"}},
 	"C19": {{"time.Time arithmetic is a contract stub over mathematical integers (saturating Sub)"}, {"time.Time internals", "real clocks"}},
 	"C20": {{"reflect is a go/types-backed model of the 17 operations the code uses"},
-		{"PARTIAL: struct shapes are a fixed family, not 'all shapes generated at run time'", "JSON decoding of field values (contract)", "embedding by pointer or deeper than one level"}},
+		{"PARTIAL: struct shapes are a fixed family, not 'all shapes generated at run time'", "JSON decoding of field values beyond the syntactic-class contract (exactly one document / trailing bytes / not a document)", "embedding by pointer or deeper than one level"}},
 }
 
 func init() {
